@@ -1,6 +1,6 @@
 (* C14: pause, closed markets and emergency shutdown.  Statements only. *)
 From MP.Model Require Import Prelude U128 SInt Feed Vamm VammOps Token World Engine Runtime.
-From MP.Proofs Require Import Tactics EngineGuards StepFacts.
+From MP.Proofs Require Import Tactics EngineGuards StepFacts SIntFacts EngineArith LiqFacts LiveFacts PauseFacts RegistryFacts.
 
 Theorem C14_paused_open : forall w t v s m l lim f, e_pause (es (w_eng w)) = true -> e_open_position w t v s m l lim f = Err EGuard.
 Proof. exact open_paused. Qed.
@@ -90,3 +90,71 @@ Theorem C14_no_vamm_pay_funding_tx : forall f w s v funds, require_vamm w v <> O
   step_f f w (OEngine s (EPayFunding v) funds) = (w, false).
 Proof. exact no_vamm_pay_funding_tx. Qed.
 Print Assumptions C14_no_vamm_pay_funding_tx.
+
+(* Liquidate does not read the pause flag: with the flag set either way the execute arm accepts or refuses alike,
+   emits the same message, and the resulting worlds differ in the flag only *)
+Theorem C14_liquidate_ignores_pause : forall w s v t lim b,
+  e_liquidate (set_pause_flag w b) s v t lim =
+  match e_liquidate w s v t lim with Ok (w1, ms) => Ok (set_pause_flag w1 b, ms) | Err e => Err e end.
+Proof. exact liquidate_ignores_pause. Qed.
+Print Assumptions C14_liquidate_ignores_pause.
+
+(* and positively, END TO END: with the engine paused a full liquidation transaction succeeds under the hypotheses
+   of C07's liveness theorem (none of which mentions the pause flag) *)
+Theorem C14_paused_liquidation_succeeds : forall f w s v t lim mr p vm vm' q b,
+  e_pause (es (w_eng w)) = true ->
+  f < 0 ->
+  let wl := with_liquidator w s in
+  let c := ec (w_eng w) in let st := es (w_eng w) in
+  find_position (w_eng w) v t = Some p -> sval (p_size p) <> 0 ->
+  liq_ratio wl v t = Ok mr -> sgtb mr (spos (e_maint c)) = false ->
+  require_vamm wl v = Ok tt ->
+  (e_liqfee c <? sval mr) && negb (e_plr c =? 0) = false ->
+  get_vamm w v = Ok vm ->
+  swap_output vm (w_env w) A_ENGINE (side_to_direction (direction_to_side (p_dir p))) (sval (p_size p)) lim = Ok (vm', (q, b)) ->
+  let lat := cumulative_premium_fraction (w_eng w) v in
+  let X := Z.abs ((toZ lat - toZ (p_lupf p)) * toZ (p_size p)) in
+  let tb := bal (w_tok w) A_ENGINE in let fund := bal (w_tok w) A_IFUND in
+  pos_wf p -> cpf_wf (w_eng w) v -> 0 < e_dec c -> 0 <= q -> 0 <= e_liqfee c ->
+  0 <= e_bad_debt st -> 0 <= tb -> 0 <= bal (w_tok w) s ->
+  sval lat < MAXU -> sval (p_lupf p) < MAXU -> sval (p_size p) < MAXU -> e_dec c < MAXU ->
+  Z.abs (toZ lat - toZ (p_lupf p)) < MAXU ->
+  X + p_notional p + q + p_margin p + q * e_liqfee c + e_bad_debt st + tb + fund + bal (w_tok w) s < MAXU ->
+  e_ifund c = A_IFUND -> if_engine (w_if w) = A_ENGINE -> s <> A_ENGINE -> s <> A_IFUND ->
+  X + p_notional p + q + p_margin p + q * e_liqfee c <= fund ->
+  liq_equity w v p (p_notional p) q <= tb ->
+  exists w', exec_op f w (OEngine s (ELiquidate v t lim) 0) = Ok w'.
+Proof. exact paused_full_liquidation_succeeds. Qed.
+Print Assumptions C14_paused_liquidation_succeeds.
+
+(* the registry: no duplicates and at most three vAMMs in every state reachable by any history of operations from a
+   fresh deployment; the membership query is the registry *)
+Theorem C14_registry_step : forall f w o w', exec_op f w o = Ok w' -> reg_ok w -> reg_ok w'.
+Proof. exact exec_op_reg. Qed.
+Print Assumptions C14_registry_step.
+
+Theorem C14_registry_reachable : forall ops w, reg_ok w -> reg_ok (run w ops).
+Proof. exact run_reg. Qed.
+Print Assumptions C14_registry_reachable.
+
+Theorem C14_registry_initial : forall e d w, init_world e d = Ok w -> reg_ok w.
+Proof. exact init_world_reg. Qed.
+Print Assumptions C14_registry_initial.
+
+Theorem C14_membership_query_is_registry : forall w v b,
+  query_is_vamm w A_IFUND v = Ok b -> (b = true <-> In v (if_vamms (w_if w))).
+Proof. exact query_is_vamm_registry. Qed.
+Print Assumptions C14_membership_query_is_registry.
+
+(* END TO END: a successful ShutdownVamms transaction leaves every registered vAMM closed, whatever state each was
+   in before; only the fund's owner (or the fund) can send it *)
+Theorem C14_shutdown_tx_closes_all : forall f w s w',
+  exec_op f w (OIfund s IShutdown) = Ok w' -> reg_ok w ->
+  forall v, In v (if_vamms (w_if w)) -> exists vm, get_vamm w' v = Ok vm /\ v_open (vs vm) = false.
+Proof. exact shutdown_tx_closes_all. Qed.
+Print Assumptions C14_shutdown_tx_closes_all.
+
+Theorem C14_shutdown_tx_only_owner : forall f w s w',
+  exec_op f w (OIfund s IShutdown) = Ok w' -> is_admin (if_owner (w_if w)) s = true \/ s = A_IFUND.
+Proof. exact shutdown_tx_only_owner. Qed.
+Print Assumptions C14_shutdown_tx_only_owner.
